@@ -40,17 +40,34 @@ var cleanKeys = []int{1, 2, 4, 6, 7, 8}
 
 var partNumbers = []int{1, 2, 9, 10, 999, 1000, 1001, 9999, 10000}
 
+// part numbers outside the S3 range that the gateway accepts (finding 5)
+var oddPartNumbers = []int{0, 10001, 100000}
+
+// chunk sizes in bytes of the filer's HTTP write path (0 = the real autoChunk with -maxMB 1)
+var chunkSizes = []int{0, 3, 5, 8, 16, 24}
+
 // ---------- world ----------
 
 type world struct {
 	env     *s3env.Env
 	vol     *fakeVolume
 	router2 *mux.Router // S3 gateway with an identity: streaming-signed requests
+	chunk   int32       // > 0: filer PUTs are served with this chunk size in bytes
 }
 
 func newWorld() *world {
 	e := s3env.New(s3env.Options{MaxMB: 1})
 	w := &world{env: e, vol: newFakeVolume(e)}
+	// small chunks: a PUT to the filer goes to the hook that runs the real doPutAutoChunk with a
+	// chunk size in bytes; everything else (and every PUT when chunk == 0) takes the real route
+	orig := e.FilerHTTP.Config.Handler
+	e.FilerHTTP.Config.Handler = http.HandlerFunc(func(rw http.ResponseWriter, r *http.Request) {
+		if _, tagging := r.URL.Query()["tagging"]; r.Method == "PUT" && w.chunk > 0 && !tagging {
+			e.FilerServer.VerifC28PutWithChunkSize(rw, r, w.chunk)
+			return
+		}
+		orig.ServeHTTP(rw, r)
+	})
 	w.router2 = mux.NewRouter().SkipClean(true)
 	cfg := &iam_pb.S3ApiConfiguration{Identities: []*iam_pb.Identity{{
 		Name:        "c28",
@@ -68,7 +85,8 @@ func (w *world) close() {
 	w.env.Close()
 }
 
-func (w *world) reset(dirListLimit int, inlineLimit int64) {
+func (w *world) reset(dirListLimit int, inlineLimit int64, chunk int) {
+	w.chunk = int32(chunk)
 	w.env.Wipe("/")
 	w.env.Mkdir("/buckets/" + bucket)
 	w.env.FilerServer.VerifC28SetLimits(dirListLimit, inlineLimit)
@@ -128,6 +146,7 @@ type op struct {
 	ks     []int
 	u      int
 	n      int
+	ns     []int // MpComplete: the part numbers of the request body
 	seed   uint64
 	size   int
 	rep    bool // body = size copies of byte seed (big bodies)
@@ -224,7 +243,11 @@ func (o *op) coq() string {
 		}
 		return fmt.Sprintf("MpCopy %d %d %s %s", o.u, o.n, coqKey(o.src), r)
 	case "MpComplete":
-		return fmt.Sprintf("MpComplete %d", o.u)
+		xs := make([]uint64, len(o.ns))
+		for i, n := range o.ns {
+			xs[i] = uint64(n)
+		}
+		return fmt.Sprintf("MpComplete %d %s", o.u, hx.NList(xs))
 	case "MpAbort":
 		return fmt.Sprintf("MpAbort %d", o.u)
 	case "MpList":
@@ -234,7 +257,7 @@ func (o *op) coq() string {
 }
 
 func (o *op) canon() string {
-	return fmt.Sprintf("%s/%d/%d/%v/%d/%d/%d:%d/%v/%v/%v/%v:%d-%d", o.kind, o.key, o.src, o.ks, o.u, o.n, o.seed, o.size, o.tamper, o.cuts, o.r, o.hasR, o.ra, o.rb)
+	return fmt.Sprintf("%s/%d/%d/%v/%d/%d/%v/%d:%d/%v/%v/%v/%v:%d-%d", o.kind, o.key, o.src, o.ks, o.u, o.n, o.ns, o.seed, o.size, o.tamper, o.cuts, o.r, o.hasR, o.ra, o.rb)
 }
 
 // ---------- running one operation on the real gateway ----------
@@ -414,7 +437,13 @@ func (rn *runner) exec(o *op) string {
 		}
 		return classify(w.s3("PUT", fmt.Sprintf("/b/%s?partNumber=%d&uploadId=%s", rn.upKey(o.u), o.n, rn.uploadID(o.u)), hdr, nil))
 	case "MpComplete":
-		return classify(w.s3("POST", fmt.Sprintf("/b/%s?uploadId=%s", rn.upKey(o.u), rn.uploadID(o.u)), nil, nil))
+		var sb strings.Builder
+		sb.WriteString("<CompleteMultipartUpload>")
+		for _, n := range o.ns {
+			fmt.Fprintf(&sb, "<Part><PartNumber>%d</PartNumber><ETag>\"%032x\"</ETag></Part>", n, n)
+		}
+		sb.WriteString("</CompleteMultipartUpload>")
+		return classify(w.s3("POST", fmt.Sprintf("/b/%s?uploadId=%s", rn.upKey(o.u), rn.uploadID(o.u)), nil, []byte(sb.String())))
 	case "MpAbort":
 		return classify(w.s3("DELETE", fmt.Sprintf("/b/%s?uploadId=%s", rn.upKey(o.u), rn.uploadID(o.u)), nil, nil))
 	case "MpList":
@@ -506,16 +535,21 @@ func (rn *runner) final() (objs string, pend string) {
 type caseSpec struct {
 	limit  int
 	inline int
+	chunk  int // 0: the real autoChunk (1 MiB)
 	ops    []*op
 	kind   string
 }
 
 func runCase(out *hx.Out, w *world, c caseSpec) {
-	w.reset(c.limit, int64(c.inline))
+	w.reset(c.limit, int64(c.inline), c.chunk)
+	chunkBytes := c.chunk
+	if chunkBytes == 0 {
+		chunkBytes = 1 << 20
+	}
 	rn := &runner{w: w}
 	opTerms := make([]string, len(c.ops))
 	impl := make([]string, len(c.ops))
-	canon := []string{fmt.Sprintf("L%d/I%d", c.limit, c.inline)}
+	canon := []string{fmt.Sprintf("L%d/I%d/C%d", c.limit, c.inline, c.chunk)}
 	for i, o := range c.ops {
 		impl[i] = rn.exec(o)
 		opTerms[i] = o.coq()
@@ -524,11 +558,22 @@ func runCase(out *hx.Out, w *world, c caseSpec) {
 		out.Count("result:"+strings.SplitN(impl[i], " ", 2)[0], 1)
 	}
 	objs, pend := rn.final()
-	term := fmt.Sprintf("{| limit := %d; inline := %d; ops := %s; impl := %s; final := %s; pend := %s |}",
-		c.limit, c.inline, hx.List(opTerms), hx.List(impl), objs, pend)
+	term := fmt.Sprintf("{| limit := %d; inline := %d; chunk := %d; ops := %s; impl := %s; final := %s; pend := %s |}",
+		c.limit, c.inline, chunkBytes, hx.List(opTerms), hx.List(impl), objs, pend)
 	out.Add(term, strings.Join(canon, ";"), rn.anyData, c.kind)
 	out.Count(fmt.Sprintf("cfg:limit=%d", c.limit), 1)
 	out.Count(fmt.Sprintf("cfg:inline=%d", c.inline), 1)
+	out.Count(fmt.Sprintf("cfg:chunk=%d", c.chunk), 1)
+	for _, n := range rn.w.env.Snapshot("/buckets/" + bucket) {
+		if !n.IsDir {
+			switch {
+			case n.Chunks >= 3:
+				out.Count("stored:chunks>=3", 1)
+			case n.Chunks == 2:
+				out.Count("stored:chunks=2", 1)
+			}
+		}
+	}
 }
 
 // ---------- generators ----------
@@ -650,15 +695,14 @@ func (t *tracker) apply(o *op) {
 			}
 		}
 	case "MpComplete":
-		if o.u < len(t.ups) && t.ups[o.u] != nil && len(t.ups[o.u]) > 0 {
-			var ns []int
-			for n := range t.ups[o.u] {
-				ns = append(ns, n)
-			}
-			sort.Ints(ns)
+		if o.u < len(t.ups) && t.ups[o.u] != nil && len(t.ups[o.u]) > 0 && len(o.ns) > 0 {
 			var all []byte
-			for _, n := range ns {
-				all = append(all, t.ups[o.u][n]...)
+			for i, n := range o.ns {
+				d, ok := t.ups[o.u][n]
+				if !ok || (i > 0 && o.ns[i-1] >= n) {
+					return
+				}
+				all = append(all, d...)
 			}
 			t.objs[t.upk[o.u]] = all
 			t.ups[o.u] = nil
@@ -668,6 +712,41 @@ func (t *tracker) apply(o *op) {
 			t.ups[o.u] = nil
 		}
 	}
+}
+
+// completeOp: CompleteMultipartUpload of upload u; mostly with the full ascending list of the
+// parts the specification holds, sometimes with a subset, a permutation, a number that was never
+// uploaded, a duplicate or an empty list
+func (t *tracker) completeOp(r *hx.Rng, u int) *op {
+	o := &op{kind: "MpComplete", u: u}
+	if u < len(t.ups) {
+		for n := range t.ups[u] {
+			o.ns = append(o.ns, n)
+		}
+	}
+	sort.Ints(o.ns)
+	if r.Chance(5, 6) {
+		return o
+	}
+	switch k := r.Intn(5); {
+	case k == 0 && len(o.ns) >= 2: // a subset
+		i := r.Intn(len(o.ns))
+		o.ns = append(append([]int{}, o.ns[:i]...), o.ns[i+1:]...)
+	case k == 1 && len(o.ns) >= 2: // out of order
+		i := r.Intn(len(o.ns) - 1)
+		o.ns[i], o.ns[i+1] = o.ns[i+1], o.ns[i]
+	case k == 2: // a part that was never uploaded
+		o.ns = append(o.ns, 10000)
+		if len(o.ns) >= 2 && o.ns[len(o.ns)-2] == 10000 {
+			o.ns[len(o.ns)-1] = 3
+			sort.Ints(o.ns)
+		}
+	case k == 3 && len(o.ns) >= 1: // a duplicate
+		o.ns = append(o.ns, o.ns[len(o.ns)-1])
+	default:
+		o.ns = nil
+	}
+	return o
 }
 
 func (t *tracker) existingKey(r *hx.Rng, universe []int) (int, bool) {
@@ -741,6 +820,9 @@ func (t *tracker) objOp(r *hx.Rng, universe []int) *op {
 		for i := 0; i < n; i++ {
 			o.ks = append(o.ks, pickKey(r, universe))
 		}
+		if r.Chance(1, 4) { // the same key twice
+			o.ks = append(o.ks, o.ks[r.Intn(len(o.ks))])
+		}
 		return o
 	}
 }
@@ -773,6 +855,7 @@ func genCase(r *hx.Rng) caseSpec {
 		if r.Chance(1, 8) {
 			c.inline = r.PickInt([]int{8, 32, 100})
 		}
+		c.chunk = r.PickInt(chunkSizes)
 		universe := cleanKeys
 		for i, n := 0, r.Range(0, 2); i < n; i++ {
 			o := &op{kind: "Put", key: pickKey(r, universe)}
@@ -787,6 +870,9 @@ func genCase(r *hx.Rng) caseSpec {
 		pool := []int{r.PickInt(partNumbers), r.PickInt(partNumbers), r.PickInt(partNumbers), r.PickInt(partNumbers)}
 		if r.Chance(1, 4) {
 			pool = append(pool, 10000, r.PickInt([]int{1001, 9999, 1000, 999}))
+		}
+		if r.Chance(1, 8) {
+			pool = append(pool, r.PickInt(oddPartNumbers))
 		}
 		for i, n := 0, r.Range(2, 9); i < n; i++ {
 			u := r.Intn(nUp)
@@ -809,7 +895,7 @@ func genCase(r *hx.Rng) caseSpec {
 			case k < 18:
 				add(&op{kind: "MpAbort", u: u})
 			case k < 19:
-				add(&op{kind: "MpComplete", u: u})
+				add(t.completeOp(r, u))
 			default:
 				add(t.objOp(r, universe))
 			}
@@ -819,7 +905,7 @@ func genCase(r *hx.Rng) caseSpec {
 				add(&op{kind: "MpList", u: u})
 			}
 			if r.Chance(5, 6) {
-				add(&op{kind: "MpComplete", u: u})
+				add(t.completeOp(r, u))
 				k := t.upk[u]
 				add(&op{kind: "Get", key: k})
 				if r.Chance(2, 3) {
@@ -842,7 +928,7 @@ func genCase(r *hx.Rng) caseSpec {
 			default:
 				add(&op{kind: "MpList", u: u})
 			}
-			add(&op{kind: "MpComplete", u: u})
+			add(&op{kind: "MpComplete", u: u, ns: []int{r.PickInt(pool)}})
 			add(&op{kind: "Get", key: t.upk[u]})
 		}
 	case k < 8:
@@ -851,6 +937,7 @@ func genCase(r *hx.Rng) caseSpec {
 		if r.Chance(1, 6) {
 			c.inline = r.PickInt([]int{8, 32, 100})
 		}
+		c.chunk = r.PickInt(chunkSizes)
 		for i, n := 0, r.Range(3, 12); i < n; i++ {
 			add(t.objOp(r, cleanKeys))
 		}
@@ -860,6 +947,7 @@ func genCase(r *hx.Rng) caseSpec {
 	default:
 		// the whole key universe: keys that are prefixes of each other (a, a/b, a/b/c, d, d/e)
 		c.kind = "namespace"
+		c.chunk = r.PickInt(chunkSizes)
 		for i, n := 0, r.Range(3, 10); i < n; i++ {
 			if r.Chance(1, 8) {
 				u := len(t.ups)
@@ -867,7 +955,7 @@ func genCase(r *hx.Rng) caseSpec {
 				o := &op{kind: "MpPut", u: u, n: r.PickInt(partNumbers)}
 				t.bodyOp(r, o)
 				add(o)
-				add(&op{kind: "MpComplete", u: u})
+				add(&op{kind: "MpComplete", u: u, ns: []int{o.n}})
 				continue
 			}
 			add(t.objOp(r, allKeys()))
@@ -891,16 +979,17 @@ func witnesses() []caseSpec {
 		return &op{kind: "MpPut", u: u, n: n, seed: seed, size: size}
 	}
 	get := func(k int) *op { return &op{kind: "Get", key: k} }
+	complete := func(u int, ns ...int) *op { return &op{kind: "MpComplete", u: u, ns: ns} }
 	return []caseSpec{
 		// 0: part 10000 sorts between 1000 and 1001
 		{limit: 100000, kind: "witness-order", ops: []*op{{kind: "MpCreate", key: 6}, part(0, 1001, 11, 5), part(0, 10000, 12, 6), part(0, 2, 13, 4),
-			{kind: "MpList", u: 0}, {kind: "MpComplete", u: 0}, get(6), {kind: "Get", key: 6, r: rng{kind: "closed", a: 2, b: 9}}}},
+			{kind: "MpList", u: 0}, complete(0, 2, 1001, 10000), get(6), {kind: "Get", key: 6, r: rng{kind: "closed", a: 2, b: 9}}}},
 		// 1: the listing limit cuts the upload (dirListLimit 2, three parts)
 		{limit: 2, kind: "witness-limit", ops: []*op{{kind: "MpCreate", key: 6}, part(0, 1, 21, 5), part(0, 2, 22, 6), part(0, 3, 23, 7),
-			{kind: "MpList", u: 0}, {kind: "MpComplete", u: 0}, get(6)}},
+			{kind: "MpList", u: 0}, complete(0, 1, 2, 3), get(6)}},
 		// 2: parts stored inline are dropped (saveToFilerLimit 32)
 		{limit: 100000, inline: 32, kind: "witness-inline", ops: []*op{{kind: "MpCreate", key: 6}, part(0, 1, 31, 10), part(0, 2, 32, 40), part(0, 3, 33, 12),
-			{kind: "MpComplete", u: 0}, get(6)}},
+			complete(0, 1, 2, 3), get(6)}},
 		// 3: DELETE of a prefix key removes the objects below it
 		{limit: 100000, kind: "witness-delete-prefix", ops: []*op{put(1, 41, 8), put(2, 42, 5), {kind: "Del", key: 0}, get(1), get(2)}},
 		// 4: PUT to a key that is a directory lands one level down
@@ -910,13 +999,23 @@ func witnesses() []caseSpec {
 		// 6: copy of a missing source creates an empty object
 		{limit: 100000, kind: "witness-copy-missing", ops: []*op{{kind: "Copy", src: 2, key: 6}, get(6)}},
 		// 7: UploadPartCopy into a completed upload re-creates it
-		{limit: 100000, kind: "witness-copy-dead-upload", ops: []*op{put(2, 71, 9), {kind: "MpCreate", key: 6}, part(0, 1, 72, 5), {kind: "MpComplete", u: 0},
-			{kind: "MpCopy", u: 0, n: 2, src: 2}, {kind: "MpComplete", u: 0}, get(6)}},
+		{limit: 100000, kind: "witness-copy-dead-upload", ops: []*op{put(2, 71, 9), {kind: "MpCreate", key: 6}, part(0, 1, 72, 5), complete(0, 1),
+			{kind: "MpCopy", u: 0, n: 2, src: 2}, complete(0, 1, 2), get(6)}},
 		// 8: a leftover empty directory redirects a later PUT
 		{limit: 100000, kind: "witness-leftover-dir", ops: []*op{put(1, 81, 8), {kind: "Del", key: 1}, put(0, 82, 5), get(0)}},
 		// 9: UploadPartCopy with a range that starts at the end of the source stores an empty part
 		{limit: 100000, kind: "witness-copy-range-at-end", ops: []*op{put(2, 91, 9), {kind: "MpCreate", key: 6}, part(0, 1, 92, 5),
-			{kind: "MpCopy", u: 0, n: 2, src: 2, hasR: true, ra: 9, rb: 12}, {kind: "MpList", u: 0}, {kind: "MpComplete", u: 0}, get(6)}},
+			{kind: "MpCopy", u: 0, n: 2, src: 2, hasR: true, ra: 9, rb: 12}, {kind: "MpList", u: 0}, complete(0, 1, 2), get(6)}},
+		// 10: part numbers 0 and 10001 are accepted; ListParts hides part 0, the object holds it
+		{limit: 100000, kind: "witness-part-range", ops: []*op{{kind: "MpCreate", key: 6}, part(0, 0, 101, 5), part(0, 1, 102, 6), part(0, 10001, 103, 4),
+			{kind: "MpList", u: 0}, complete(0, 0, 1, 10001), get(6)}},
+		// 11: CompleteMultipartUpload with the part list [1, 3] of an upload holding 1, 2, 3: all three are assembled
+		{limit: 100000, kind: "witness-complete-list", ops: []*op{{kind: "MpCreate", key: 6}, part(0, 1, 111, 5), part(0, 2, 112, 6), part(0, 3, 113, 4),
+			complete(0, 1, 3), get(6)}},
+		// 12: parts of several filer chunks (chunk size 4 bytes: 3, 1, 0 and 2 chunks), ranges across the boundaries
+		{limit: 100000, chunk: 4, kind: "witness-multichunk", ops: []*op{{kind: "MpCreate", key: 6}, part(0, 2, 121, 10), part(0, 1, 122, 3), part(0, 7, 123, 0), part(0, 10000, 124, 8),
+			{kind: "MpList", u: 0}, complete(0, 1, 2, 7, 10000), get(6), {kind: "Get", key: 6, r: rng{kind: "closed", a: 2, b: 12}},
+			{kind: "Get", key: 6, r: rng{kind: "suffix", a: 9}}, {kind: "Get", key: 6, r: rng{kind: "from", a: 7}}}},
 	}
 }
 
@@ -934,7 +1033,7 @@ func bigCase(r *hx.Rng) caseSpec {
 	c.ops = append(c.ops, &op{kind: "MpPut", u: 0, n: nums[r0], seed: 98, size: head})
 	c.ops = append(c.ops, &op{kind: "MpPut", u: 0, n: nums[r0+1], rep: true, seed: uint64(r.Range(1, 250)), size: mib + tail})
 	c.ops = append(c.ops, &op{kind: "MpPut", u: 0, n: 5000, seed: 99, size: r.Range(1, 30)})
-	c.ops = append(c.ops, &op{kind: "MpList", u: 0}, &op{kind: "MpComplete", u: 0})
+	c.ops = append(c.ops, &op{kind: "MpList", u: 0}, &op{kind: "MpComplete", u: 0, ns: []int{nums[r0], nums[r0+1], 5000}})
 	for i := 0; i < 3; i++ {
 		a := uint64(head + mib - 20 + r.Intn(30)) // around the boundary of the two chunks
 		switch i {
@@ -952,8 +1051,8 @@ func bigCase(r *hx.Rng) caseSpec {
 func main() {
 	out := hx.Flags("C28", 300)
 	out.Rule = "histories of S3 requests on one bucket through the real gateway router over a real in-process filer (leveldb2) with a loopback volume stand-in: " +
-		"first 10 deterministic witnesses of the known findings and of the repaired defects, then per case one of: multipart (1-2 uploads over prefix-free keys, part numbers from {1,2,9,10,999,1000,1001,9999,10000} with a small per-case pool so that overwrites and the 10000 mix happen, bodies 0..64 bytes, streaming-signed parts incl. a bad chunk signature, UploadPartCopy with ranges, ListParts, abort, requests after completion; dirListLimit in {100000,1000,1..3}, saveToFilerLimit in {0,8,32,100}), " +
-		"objects (PUT / streaming PUT / copy / GET with closed, open, suffix and unsatisfiable ranges / DELETE / batch delete over prefix-free keys), namespace (the same over keys that are path prefixes of each other: a, a/b, a/b/c, d, d/e, ab), case 10 and every 400th case a multi-chunk upload (a part of 1 MiB + tail = two 1 MiB filer chunks between two small parts, ranges across the chunk and part boundaries). " +
+		"first 13 deterministic witnesses of the known findings (k=0..6), of the repaired defects and of multi-chunk parts, then per case a filer chunk size from {1 MiB through the real autoChunk, 3, 5, 8, 16, 24 bytes through the hook VerifC28PutWithChunkSize around the real doPutAutoChunk} so that most bodies become 2..20 chunks, and one of: multipart (1-2 uploads over prefix-free keys, part numbers from {1,2,9,10,999,1000,1001,9999,10000} with a small per-case pool so that overwrites and the 10000 mix happen, in 1/8 of the cases also one of {0,10001,100000}, bodies 0..64 bytes, streaming-signed parts incl. a bad chunk signature, UploadPartCopy with ranges, ListParts, abort, CompleteMultipartUpload with a real <Part> list in the body (5/6: all parts the specification holds, ascending; else a subset, a swap, a never-uploaded number, a duplicate or an empty list), requests after completion; dirListLimit in {100000,1000,1..3}, saveToFilerLimit in {0,8,32,100}), " +
+		"objects (PUT / streaming PUT / copy / GET with closed, open, suffix and unsatisfiable ranges / DELETE / batch delete (1/4 with a repeated key) over prefix-free keys), namespace (the same over keys that are path prefixes of each other: a, a/b, a/b/c, d, d/e, ab), case 13 of shard 0 and every 400th case a 1 MiB multi-chunk upload (a part of 1 MiB + tail = two 1 MiB filer chunks between two small parts, ranges across the chunk and part boundaries). " +
 		"non-trivial = some GET returned a non-empty body; distinct = canonical configuration + op list"
 	w := newWorld()
 	defer w.close()
